@@ -27,7 +27,17 @@ type row struct {
 	Cyclic bool    `json:"cyclic"`
 }
 
-func name(i int) string { return fmt.Sprintf("s%d", i) }
+// Stage names: the first four contain ':' in a way that makes concatenations of two names
+// ambiguous ("x" + ":" + "y:z" = "x:y" + ":" + "z"), as names in real configurations do
+// ("lint:go", "graph:task1"); the others are plain.
+var nameTable = []string{"", "x", "x:y", "y:z", "z"}
+
+func name(i int) string {
+	if i > 0 && i < len(nameTable) {
+		return nameTable[i]
+	}
+	return fmt.Sprintf("s%d", i)
+}
 
 // build feeds the stages to the real NewExecutionGraph in the given declaration order.
 func build(n int, deps [][]int, order []int) (*scheduler.ExecutionGraph, error) {
@@ -64,7 +74,14 @@ func idsOf(names []string) []int {
 	out := []int{}
 	for _, s := range names {
 		var k int
-		fmt.Sscanf(s, "s%d", &k)
+		for j := 1; j < len(nameTable); j++ {
+			if nameTable[j] == s {
+				k = j
+			}
+		}
+		if k == 0 {
+			fmt.Sscanf(s, "s%d", &k)
+		}
 		out = append(out, k)
 	}
 	return out
@@ -130,19 +147,33 @@ func compare(r row, order []int) (kind, what string) {
 // yamlFor writes the pipeline as YAML. Stage i runs a task named after ANOTHER stage (s_{i+1}),
 // so stage names and task names collide across stages, as a configuration may; depends_on must
 // still be resolved among stage names only.
-func yamlFor(n int, deps [][]int, order []int) string {
+// variant 1: the stage declared first has no name of its own and runs the task called like it
+// (default stage name = task name); variant 2: it has no name and includes a pipeline called like
+// it (default stage name = pipeline name). Other stages depend on it by that default name.
+func yamlFor(n int, deps [][]int, order []int, variant int) string {
 	var b strings.Builder
 	b.WriteString("tasks:\n")
 	for i := 1; i <= n; i++ {
-		fmt.Fprintf(&b, "  %s:\n    command: [\"true\"]\n", name(i))
+		fmt.Fprintf(&b, "  %q:\n    command: [\"true\"]\n", name(i))
 	}
-	b.WriteString("pipelines:\n  p:\n")
-	for _, i := range order {
-		fmt.Fprintf(&b, "    - name: %s\n      task: %s\n", name(i), name(i%n+1))
+	b.WriteString("pipelines:\n")
+	if variant == 2 {
+		fmt.Fprintf(&b, "  %q:\n    - task: %q\n", name(order[0]), name(order[0]))
+	}
+	b.WriteString("  p:\n")
+	for k, i := range order {
+		switch {
+		case k == 0 && variant == 1:
+			fmt.Fprintf(&b, "    - task: %q\n", name(i))
+		case k == 0 && variant == 2:
+			fmt.Fprintf(&b, "    - pipeline: %q\n", name(i))
+		default:
+			fmt.Fprintf(&b, "    - name: %q\n      task: %q\n", name(i), name(i%n+1))
+		}
 		if len(deps[i-1]) > 0 {
 			var ds []string
 			for _, d := range deps[i-1] {
-				ds = append(ds, name(d))
+				ds = append(ds, fmt.Sprintf("%q", name(d)))
 			}
 			fmt.Fprintf(&b, "      depends_on: [%s]\n", strings.Join(ds, ", "))
 		}
@@ -150,7 +181,7 @@ func yamlFor(n int, deps [][]int, order []int) string {
 	return b.String()
 }
 
-var reNode = regexp.MustCompile(`(n\d+)\[label="(s\d+)"\]`)
+var reNode = regexp.MustCompile(`(n\d+)\[label="([^"]+)"\]`)
 var reEdge = regexp.MustCompile(`(n\d+)->(n\d+);`)
 
 // Check is the engine behind C05.
@@ -383,10 +414,10 @@ func Check(env *core.Env, rep *core.Report) *core.Result {
 	core.Parallel(nBin, 16, func(i int) {
 		c := cases[i]
 		f := filepath.Join(dir, fmt.Sprintf("g%d.yaml", i))
-		_ = ioutil.WriteFile(f, []byte(yamlFor(c.r.N, c.r.Deps, c.order)), 0o644)
+		_ = ioutil.WriteFile(f, []byte(yamlFor(c.r.N, c.r.Deps, c.order, i%3)), 0o644)
 		res := core.RunBin(dir, core.CleanEnv(home), 20*time.Second, "", env.Taskctl, "-c", f, "graph", "p")
 		atomic.AddInt64(&binRuns, 1)
-		detail := map[string]interface{}{"yaml": yamlFor(c.r.N, c.r.Deps, c.order), "stdout": res.Stdout, "stderr": tail(res.Stderr, 400), "exit": res.Exit}
+		detail := map[string]interface{}{"yaml": yamlFor(c.r.N, c.r.Deps, c.order, i%3), "stdout": res.Stdout, "stderr": tail(res.Stderr, 400), "exit": res.Exit}
 		if res.TimedOut || res.Crashed() {
 			add("bin:crash-or-hang", fmt.Sprintf("taskctl graph crashed or hung on deps=%v order=%v", c.r.Deps, c.order), detail)
 			return
